@@ -94,6 +94,7 @@ def op(t):
     if h == "clone": return "OClone %s %s" % (nat(t[1]), nat(t[2]))
     if h == "clone_empty": return "OCloneEmpty %s %s" % (nat(t[1]), nat(t[2]))
     if h == "clone_empty_in": return "OCloneEmptyIn %s %s %s" % (nat(t[1]), nat(t[2]), bk(t[3]))
+    if h == "clone_in": return "OCloneIn %s %s %s" % (nat(t[1]), bk(t[2]), n(t[3]))
     if h in ("treserve", "treserve_exact", "tshrink_to_fit", "tshrink_to"):   # the typed view forwards to the same raw operation
         h = h[1:]
     if h == "reserve": return "OReserve %s %s" % (nat(t[1]), n(t[2]))
